@@ -261,3 +261,51 @@ Theorem C09_sandbox_total :
        sandbox_call c = SReturns 0 ECtx).
 Proof. exact sandbox_total. Qed.
 Print Assumptions C09_sandbox_total.
+
+(* ---- classic engine: stream.ParallelNode (a processor with workers > 1) around ProcessorNode
+   workers, malformed replies at any worker, the DLQ accepting or refusing the rejected record
+   (Funnel/Par.v: Run / forwarder / coordinator job protocol as a transition system; which
+   forwarder takes a job is the scheduler's choice) ---- *)
+From Verif Require Import Funnel.Par Funnel.ParProofs.
+
+(* no wedge: a state of the job protocol is at rest (Run has returned and every dispatched job was
+   collected by the coordinator: job.Done met job.Wait) or it can move, and every move takes it
+   strictly closer to rest - for any number of workers, any messages, any reply shapes, any worker
+   deaths, any scheduling *)
+Theorem C09_v1_parallel_no_wedge :
+  forall w ms s, par_reach w ms s ->
+    par_terminal s \/
+    exists s', par_step s s' /\ par_reach w ms s' /\ par_measure s' < par_measure s.
+Proof. exact par_no_wedge. Qed.
+Print Assumptions C09_v1_parallel_no_wedge.
+
+(* ... so rest is reached from every reachable state *)
+Theorem C09_v1_parallel_reaches_rest :
+  forall w ms n s, par_measure s <= n -> par_reach w ms s ->
+    exists s', par_reach w ms s' /\ par_terminal s'.
+Proof. exact par_reaches_rest. Qed.
+Print Assumptions C09_v1_parallel_reaches_rest.
+
+(* at rest every message handed to the node has exactly one outcome (forwarded once with its own
+   position and not nacked, or nacked and not forwarded), a message with a malformed reply was not
+   forwarded, a message not handed in has none, and Run returns nil only if it took every message *)
+Theorem C09_v1_parallel_every_job_completed :
+  forall w ms s, par_reach w ms s -> par_terminal s ->
+    par_monitor ms (par_final_obs s) true (par_final_term s) = true.
+Proof. exact par_terminal_monitor. Qed.
+Print Assumptions C09_v1_parallel_every_job_completed.
+
+(* whatever observation of the real node the acceptor accepts satisfies the monitor *)
+Theorem C09_v1_parallel_accepted_ok :
+  forall w ms os closed t, par_accept w ms os closed t = true -> par_monitor ms os closed t = true.
+Proof. exact par_accept_monitor. Qed.
+Print Assumptions C09_v1_parallel_accepted_ok.
+
+(* non-vacuity: two workers, the first message gets two results for one record (its worker dies, the
+   DLQ takes the record), the third message is taken by the forwarder of the dead worker *)
+Example C09_v1_parallel_nonvacuous :
+  let m k r := mkPMsg [k] [k] false NackOk r in
+  par_accept 2 [m 1 [VSame; VSame]; m 2 [VSame]; m 3 [VSame]]
+    [mkPO true true SNacked 0 [] [] false; mkPO true true SOpen 1 [2] [2] false;
+     mkPO true false SNacked 0 [] [] false] true PTOk = true.
+Proof. vm_compute. reflexivity. Qed.
